@@ -24,7 +24,7 @@ Definition pinned_wire : list (string * string) :=
   ("client.py:parse_leader_message.pattern"%string, "(.*) to lead"%string);
   ("client.py:parse_timing.pattern"%string, "Timing - N/S : this board (*.), total (*.). E/W : this board (*.), total (.*)"%string)].
 Definition pinned_pbn : list (string * string) :=
- [("parser.py:PbnParser.TAG_PATTERN"%string, "\[[ ]?([A-Z][a-zA-Z]+) ""([^""]*)""[ ]?\]"%string);
+ [("parser.py:PbnParser.TAG_PATTERN"%string, "\[[ \t\r\n]*([A-Z][a-zA-Z]+)[ \t\r\n]+""([^""]*)""[ \t\r\n]*\]"%string);
   ("parser.py:PbnParser.REPLACE_PATTERN"%string, "[ \t\r\n]+"%string);
   ("parser.py:parse_stream.re.match"%string, "% PBN (\d+)\.(\d+)"%string);
   ("parser.py:parse_stream.re.match"%string, "% EXPORT"%string)].
